@@ -257,7 +257,7 @@ func Event(id string, obj any) {
 		return
 	}
 	x.mu.Lock()
-	x.event(t, id, 0, obj, false, 0)
+	x.sideEvent(t, id, obj)
 	x.mu.Unlock()
 }
 
@@ -393,14 +393,13 @@ func Statfs(path string, st *syscall.Statfs_t) error {
 func VNow() time.Time {
 	if mode.Load() == ModeControlled {
 		if x := current.Load(); x != nil {
-			if t := x.self(); t != nil {
-				x.mu.Lock()
-				x.noteClockRead(t)
-				n := x.now
-				x.mu.Unlock()
-				return time.Unix(0, 0).Add(baseOffset + n)
+			if x.inDecide.Load() == goid() {
+				return time.Unix(0, 0).Add(baseOffset + x.now)
 			}
-			return time.Unix(0, 0).Add(baseOffset + x.now)
+			x.mu.Lock()
+			n := x.now
+			x.mu.Unlock()
+			return time.Unix(0, 0).Add(baseOffset + n)
 		}
 	}
 	if mode.Load() == ModeSeq && SeqClock != nil {
